@@ -4,7 +4,7 @@
      op      init | pack | unpack | gen | tmap
      form    I (interpreted) | C (vp_compile) | D (dataclass; third token holds type annotations)
      fmts    [s:I,s:bits,c:Cls,l:Cls]             types  [bool,int,tv:varlenH,co:int,cot:int,cos:int,cs:Cls,cot:se:Cls,se:Cls,lit:Cls,other]
-     init    - | kw | nokw | super:<n>             (no user __init__ | with **kwargs | without | old-style
+     init    - | kw | nokw | kwo:<k> | kwok:<k> (last k names keyword-only) | super:<n>             (no user __init__ | with **kwargs | without | old-style
                                                     superclass whose __init__ takes the first n names)
      defaults [b=d1>d1,c=d2>!]                     name=value>value-denoted-by-the-spliced-text ("!" = does not compile)
      fixpack / fixunpack  [a,c]                    fields with a hook
@@ -152,6 +152,8 @@ def step (_ : Unit) (toks : List String) : Unit × String :=
         | "nokw" => some (some false, 0)
         | other => match splitOnce other ':' with
           | some ("super", n) => n.toNat?.map (fun k => (none, k))
+          | some ("kwo", n) => n.toNat?.map (fun k => (some false, 1000 + k))      -- last k names keyword-only
+          | some ("kwok", n) => n.toNat?.map (fun k => (some true, 1000 + k))      -- same, with **kwargs
           | _ => none
       let (defaults, spliceTab) ← parseDefaults dfS
       let splice : Term → Option Term := fun t => match alookup spliceTab t.render with
@@ -171,7 +173,9 @@ def step (_ : Unit) (toks : List String) : Unit × String :=
         | _ => do
           let fmts ← fitems.mapM parseFmt
           some (.ok { fmts := fmts, names := names, userInit := userInit, defaults := defaults,
-                      fixPack := fp, fixUnpack := fu, superArgs := names.take superN })
+                      fixPack := fp, fixUnpack := fu,
+                      superArgs := if superN ≥ 1000 then [] else names.take superN,
+                      kwOnly := if superN ≥ 1000 then names.drop (names.length - (superN - 1000)) else [] })
       match defE with
       | .error e => some (showErr e)
       | .ok d =>
